@@ -304,10 +304,12 @@ def _validate_params_with_signature(
             # For non-variadic arguments, get the parameter name this maps to
             if next_positional_index < max_positional_index:
                 param_name = valid_params[next_positional_index]
-                # Check if this parameter was already provided as a kwarg
-                if param_name in used_param_names:
-                    raise TypeError(f"got multiple values for argument '{param_name}'")
-                used_param_names.add(param_name)
+                # NOTE: Positional-only params cannot be passed as kwargs, so their names stay available for `**kwargs`
+                if params_by_name[param_name].kind != inspect.Parameter.POSITIONAL_ONLY:
+                    # Check if this parameter was already provided as a kwarg
+                    if param_name in used_param_names:
+                        raise TypeError(f"got multiple values for argument '{param_name}'")
+                    used_param_names.add(param_name)
 
             validated_args.append(param.value)
             next_positional_index += 1
@@ -334,8 +336,11 @@ def _validate_params_with_signature(
         validated_kwargs.update(extra_kwargs)
 
     # Check for missing required arguments and apply defaults
-    for param_name, signature_param in params_by_name.items():
+    for i, (param_name, signature_param) in enumerate(params_by_name.items()):
         if param_name in used_param_names or param_name in validated_kwargs:
+            continue
+        # Positional-only param that was given positionally
+        if signature_param.kind == inspect.Parameter.POSITIONAL_ONLY and i < next_positional_index:
             continue
 
         if signature_param.kind in (inspect.Parameter.POSITIONAL_ONLY, inspect.Parameter.POSITIONAL_OR_KEYWORD):
@@ -413,9 +418,12 @@ def _validate_params_with_code(
             # For non-variadic arguments, get parameter name
             if next_positional_index < positional_count:
                 param_name = param_names[next_positional_index]
-                if param_name in used_param_names:
-                    raise TypeError(f"got multiple values for argument '{param_name}'")
-                used_param_names.add(param_name)
+                # NOTE: Positional-only params cannot be passed as kwargs, so their names stay available for `**kwargs`
+                if next_positional_index >= posonly_count:
+                    # Check if this parameter was already provided as a kwarg
+                    if param_name in used_param_names:
+                        raise TypeError(f"got multiple values for argument '{param_name}'")
+                    used_param_names.add(param_name)
 
             validated_args.append(param.value)
             next_positional_index += 1
@@ -447,6 +455,9 @@ def _validate_params_with_code(
     # Check for missing required arguments and apply defaults
     for i, param_name in enumerate(param_names):
         if param_name in used_param_names or param_name in validated_kwargs:
+            continue
+        # Positional-only param that was given positionally
+        if i < posonly_count and i < next_positional_index:
             continue
 
         if i < positional_count:  # Positional parameter
